@@ -1,0 +1,168 @@
+//go:build verif
+
+package main
+
+import (
+	"fmt"
+	"mltwist/internal/consoleui/verifhook"
+	"mltwist/internal/state/memory"
+	"mltwist/pkg/expr"
+	"mltwist/pkg/model"
+	"strings"
+)
+
+// Memory view histories (property C32), one history per line:
+//
+//	memview nil <k> cmd1 ... cmdk
+//	memview sparse <n> (<addr> <w> <expr>)*n <k> cmd1 ... cmdk
+//	memview bytes <b> (<begin> <hex>)*b <n> (<addr> <w> <expr>)*n <k> cmd1 ... cmdk
+//
+// The memory is built first (nil interface / memory.NewSparse + Stores /
+// memory.NewBytes + Stores), then memview.New(mem) and the commands of that
+// mode are executed through Commands()[i].Args (argument parsers) and
+// Commands()[i].Action:
+//
+//	print <n>       View().Print(n), stdout captured
+//	addr <hex>      command "address" with the hex-decoded argument string
+//	goto <dec>      command "goto"
+//	up <dec>        command "up"
+//	down <dec>      command "down"
+//
+// Answers, joined by " | ": "ok <cursor>", "err <cursor>" (the Action
+// returned an error), "argerr <cursor>" (the argument parser rejected the
+// argument), "out <cursor> <hex of the output>", "PANIC" (ends the history).
+// <cursor> is the cursor after the command, "none" for a nil cursor. The
+// answer is "PANIC" alone if building the memory or the mode panics and
+// "err:overlap" if NewBytes fails.
+func opMemView(t *tokens) string {
+	type store struct {
+		addr model.Addr
+		w    expr.Width
+		ex   expr.Expr
+	}
+	readStores := func() []store {
+		n := t.int()
+		sts := make([]store, 0, n)
+		for i := 0; i < n; i++ {
+			addr := model.Addr(t.uint())
+			w := t.width()
+			sts = append(sts, store{addr: addr, w: w, ex: t.expr()})
+		}
+		return sts
+	}
+
+	kind := t.next()
+	var blocks []memory.ByteBlock
+	var stores []store
+	switch kind {
+	case "nil":
+	case "sparse":
+		stores = readStores()
+	case "bytes":
+		b := t.int()
+		for i := 0; i < b; i++ {
+			begin := model.Addr(t.uint())
+			blocks = append(blocks, vBlock{begin: begin, bs: t.hex()})
+		}
+		stores = readStores()
+	default:
+		panic(parseError("bad memview memory kind " + kind))
+	}
+
+	type cmd struct {
+		name string
+		arg  string
+		n    int
+	}
+	k := t.int()
+	cmds := make([]cmd, 0, k)
+	for i := 0; i < k; i++ {
+		c := cmd{name: t.next()}
+		switch c.name {
+		case "print":
+			c.n = t.int()
+		case "addr":
+			c.arg = string(t.hex())
+		case "goto", "up", "down":
+			c.arg = t.next()
+		default:
+			panic(parseError("bad memview command " + c.name))
+		}
+		cmds = append(cmds, c)
+	}
+
+	var view *verifhook.C32MemView
+	overlap := false
+	built := protect(func() string {
+		var mem memory.Memory
+		switch kind {
+		case "sparse":
+			m := memory.NewSparse()
+			for _, s := range stores {
+				m.Store(s.addr, s.ex, s.w)
+			}
+			mem = m
+		case "bytes":
+			m, err := memory.NewBytes(blocks)
+			if err != nil {
+				overlap = true
+				return ""
+			}
+			for _, s := range stores {
+				m.Store(s.addr, s.ex, s.w)
+			}
+			mem = m
+		}
+		view = verifhook.C32NewMemView(mem)
+		return ""
+	})
+	if built == "PANIC" {
+		return "PANIC"
+	}
+	if overlap {
+		return "err:overlap"
+	}
+
+	cursor := func() string {
+		c, ok := view.Cursor()
+		if !ok {
+			return "none"
+		}
+		return fmt.Sprintf("%d", c)
+	}
+
+	keys := map[string]string{"addr": "address", "goto": "goto", "up": "up", "down": "down"}
+	out := make([]string, 0, len(cmds))
+	for _, c := range cmds {
+		c := c
+		a := protect(func() string {
+			if c.name == "print" {
+				text, err := view.Print(c.n)
+				if err != nil {
+					return "err " + cursor()
+				}
+				return "out " + cursor() + " " + fmtHex([]byte(text))
+			}
+			parsed, err := view.Run(keys[c.name], c.arg)
+			if !parsed {
+				return "argerr " + cursor()
+			}
+			if err != nil {
+				return "err " + cursor()
+			}
+			return "ok " + cursor()
+		})
+		out = append(out, a)
+		if a == "PANIC" {
+			break
+		}
+	}
+	if len(out) == 0 {
+		return "-"
+	}
+	return strings.Join(out, " | ")
+}
+
+func init() {
+	register("memview", opMemView)
+}
